@@ -56,7 +56,7 @@ CHECKS = {
             "Every operation sequence over a 10-symbol alphabet up to depth 8 (9 in thorough) on three byte-item backings (and to depth 7 (8) on backings with zero-sized, 8-byte and padded-pair items) is enumerated and compared step by step with VecDeque, then tens of thousands (millions in thorough) of random sequences of up to 200 operations, and sequences starting from 1000..300000 elements with half of them consumed; the space bound is read through a hook, the crate's debug assertions are on. Exhaustive within the bound, sampled beyond it.",
             "VecDeque is the reference; bounded sequence length; hooks: sliding_deque/verif-hooks (verif_rep).", "DESIGN.md §5 C15"),
     "C16": ("model-based property testing: exhaustive DFS over operation sequences + proptest random sequences, BTreeMap as reference model",
-            "Every operation sequence over a 12-symbol alphabet up to depth 7 (8 in thorough) for both item conventions is enumerated and compared with BTreeMap after every step (iteration, first/last, find of every key), then random sequences of up to 150 operations including pushes that must panic.",
+            "Every operation sequence over a 12-symbol alphabet up to depth 7 (8 in thorough) for the built-in item conventions (and to depth 6 (7) for wide signed keys and for a user-supplied reversed comparator) is enumerated and compared with BTreeMap after every step (iteration, first/last, find of every key), then random sequences of up to 150 operations including pushes that must panic.",
             "BTreeMap is the reference; key universe of 8; whole-item convention exercised with distinct keys only.", "DESIGN.md §5 C16"),
     "C17": ("fault-injection property testing: scripted reader faults (short reads, EINTR, EOF, hard errors) enumerated exhaustively up to a script length and generated randomly beyond, against a reference read loop written from the documentation",
             "All fault scripts up to length 4 (5) x 7 counts x 6 attempt limits x 5 (entry point, arena state) pairs are enumerated, plus random scripts and sequences of encode_read/decode_read calls; the instrumented reader records the buffer size of every call, and the result, call count, offered sizes, error kind and final codec output are compared with the reference.",
